@@ -81,6 +81,27 @@ def mp_store_world(scratch, name, contents, docs, pids, fmts):
     return w
 
 
+def mp_mode_entered(store):
+    """Representation-independent: the instance says so, or it (or a helper object of the hashstore package it holds)
+    carries a multiprocessing synchronisation primitive / manager proxy."""
+    if getattr(store, "use_multiprocessing", False):
+        return True
+
+    def visit(obj, depth):
+        try:
+            vals = list(vars(obj).values())
+        except TypeError:
+            return False
+        for v in vals:
+            mod = type(v).__module__ or ""
+            if mod.startswith("multiprocessing"):
+                return True
+            if depth < 2 and mod.split(".")[0] == "hashstore" and not isinstance(v, type) and visit(v, depth + 1):
+                return True
+        return False
+    return visit(store, 0)
+
+
 def mp_lists(store):
     """The multiprocessing-mode locked-identifier lists of an instance (None when it has none)."""
     out = S.locked_lists_generic(store, "_mp")
@@ -130,8 +151,11 @@ def run_equiv(n, sub_seed):
                     break
                 ml = mp_lists(wm.store)
                 if ml is None:
-                    res.violation(dict(shape, symptom="mp-call-error", detail="no *_mp lists on the instance"), wit)
-                    break
+                    # the claimed identifiers are kept in a representation this monitor cannot see (not list attributes
+                    # named *_mp): no verdict from the 'claims released' oracle here; the behavioural parts decide
+                    res.count("claim_containers_not_visible")
+                    continue
+                res.count("claim_lists_inspected")
                 if any(ml.values()):
                     wit["lists"] = ml
                     res.violation(dict(shape, symptom="mp-list-not-empty"), wit)
@@ -159,9 +183,10 @@ def run_histories(n, sub_seed, mode="procs"):
             name = f"h{k}"
             if mode == "procs":
                 w = mp_store_world(scratch, name, contents, docs, pids, fmts)
-                if not getattr(w.store, "use_multiprocessing", False) or mp_lists(w.store) is None:
-                    res.violation({"symptom": "mp-call-error", "detail": "multiprocessing primitives missing on the instance"},
-                                  {"engine": "C16c", "note": "store built with USE_MULTIPROCESSING=True has no *_mp attributes"})
+                if not mp_mode_entered(w.store):
+                    # (how the mode is represented is the store's business; calls that fail in this mode are reported
+                    # by part (a), missing exclusion by the histories below - here it only means: nothing to test)
+                    res.inconclusive.append("a store built with USE_MULTIPROCESSING=True shows no sign of multiprocessing mode")
                     return res
             else:
                 w = World(scratch, contents, docs, pids=pids, fmts=fmts, store_dir=name)
@@ -313,11 +338,10 @@ def run_shard(kind, *args):
     scratch = new_scratch("c16b")
     try:
         w = mp_store_world(scratch, "probe", {}, {}, [], [None])
-        if not getattr(w.store, "use_multiprocessing", False) or mp_lists(w.store) is None:
+        if not mp_mode_entered(w.store):
             res = ShardResult()
             res.evaluations = 1
-            res.violation({"symptom": "mp-call-error", "detail": "multiprocessing primitives missing on the instance"},
-                          {"engine": "C16b", "note": "FileHashStore built with USE_MULTIPROCESSING=True has no *_mp attributes"})
+            res.inconclusive.append("a store built with USE_MULTIPROCESSING=True shows no sign of multiprocessing mode")
             return res
         del w
     finally:
